@@ -21,7 +21,7 @@ VE = ('ValueError', 'CreationError', 'InterpretError')
 
 def describe(tier):
     q = tier == 'quick'
-    return dict(bounds=dict(lengths='-8,-1,0,1..17,24,31,32,33,63,64,65' + ('' if q else ',18..130,255,256,257,1000'),
+    return dict(bounds=dict(lengths='-8,-1,0,1..17,24,31,32,33,63,64,65,72,128' + ('' if q else ',18..130,255,256,257,1000'),
                             int_values='-1, 0, 2**n-1, 2**n, 2**n+1, -2**(n-1)-1, -2**(n-1), 2**(n-1)-1, 2**(n-1), and all values -2..2**n+1 for n <= %d' % (7 if q else 12),
                             float_lengths='0,8,15,16,17,31,32,33,63,64,65,128', digits='valid and invalid hex/oct/bin digit strings; token length != value length',
                             windows='bytes=, bitarray=, BytesIO, filename=, file handle: every (offset, length) in {-9,-1,0,1,7,8,9,L-1,L,L+1,L+8}^2 (+None)',
@@ -43,7 +43,7 @@ def int_ok(kind, n, v):
 def shards(tier, seed):
     q = tier == 'quick'
     out = []
-    lengths = [-8, -1, 0] + list(range(1, 18)) + [24, 31, 32, 33, 63, 64, 65] + ([] if q else [n for n in range(18, 131) if n not in (24, 31, 32, 33, 63, 64, 65)] + [255, 256, 257, 1000])
+    lengths = [-8, -1, 0] + list(range(1, 18)) + [24, 31, 32, 33, 63, 64, 65, 72, 128] + ([] if q else [n for n in range(18, 131) if n not in (24, 31, 32, 33, 63, 64, 65, 72, 128)] + [255, 256, 257, 1000])
     for name in ('uint', 'int', 'uintbe', 'intbe', 'uintle', 'intle'):
         for n in lengths:
             out.append(dict(kind='ints', dtype=name, n=n))
